@@ -39,6 +39,8 @@ type Term struct {
 	// interval for Int terms (saturating); valid when HasIv
 	Lo, Hi int64
 	str    string
+	syms   []string
+	symsOK bool
 }
 
 const (
@@ -757,4 +759,17 @@ func strEqSimplify(a, b *Term) *Term {
 	}
 	na, nb := joinParts(pa[n:], ra), joinParts(pb[n:], rb)
 	return TEq(na, nb)
+}
+
+
+// SymNames returns the (cached, sorted) names of the symbols under t.
+func (t *Term) SymNames() []string {
+	if t.symsOK {
+		return t.syms
+	}
+	m := map[string]*Term{}
+	t.Syms(m)
+	t.syms = sortedSymNames(m)
+	t.symsOK = true
+	return t.syms
 }
